@@ -997,6 +997,13 @@ func (m *magAnalyzer) call(f *mframe, st *mstate, c ssa.CallInstruction) *mv {
 		return m.builtin(f, st, c, b.Name())
 	}
 	g := com.StaticCallee()
+	var bound []*mv
+	if g == nil {
+		// a function value whose target is known (a method value or closure handed down as an argument)
+		if fv := m.val(f, com.Value); fv != nil && fv.kind == mFunc && fv.Fn != nil && len(fv.Fn.Blocks) > 0 {
+			g, bound = fv.Fn, fv.Elems
+		}
+	}
 	if g == nil {
 		for _, a := range com.Args {
 			m.requireCanonical(f, ins, m.val(f, a), "argument of a dynamic call")
@@ -1021,7 +1028,7 @@ func (m *magAnalyzer) call(f *mframe, st *mstate, c ssa.CallInstruction) *mv {
 	for i, a := range com.Args {
 		args[i] = m.val(f, a)
 	}
-	return m.invoke(f, st, g, args, ins)
+	return m.invokeBound(f, st, g, args, bound, ins)
 }
 
 // extern: a function outside the module (math/big, math/bits, fmt, gnark-crypto …)
@@ -1061,12 +1068,16 @@ func (m *magAnalyzer) hasPtrArg(g *ssa.Function) bool {
 }
 
 func (m *magAnalyzer) invoke(f *mframe, st *mstate, g *ssa.Function, args []*mv, site ssa.Instruction) *mv {
+	return m.invokeBound(f, st, g, args, nil, site)
+}
+
+func (m *magAnalyzer) invokeBound(f *mframe, st *mstate, g *ssa.Function, args []*mv, bound []*mv, site ssa.Instruction) *mv {
 	if f.depth > 40 {
 		m.note("call depth limit reached")
 		return m.unknownOf(g.Signature.Results(), 0)
 	}
 	var key string
-	memoable := !m.hasPtrArg(g)
+	memoable := !m.hasPtrArg(g) && len(bound) == 0
 	if memoable {
 		var sb strings.Builder
 		fmt.Fprintf(&sb, "%p|", g)
@@ -1087,6 +1098,11 @@ func (m *magAnalyzer) invoke(f *mframe, st *mstate, g *ssa.Function, args []*mv,
 	for i, p := range g.Params {
 		if i < len(args) {
 			nf.env[p] = args[i]
+		}
+	}
+	for i, fv := range g.FreeVars {
+		if i < len(bound) {
+			nf.env[fv] = bound[i]
 		}
 	}
 	m.ctx = append(m.ctx, m.P.FnName(g))
@@ -1808,7 +1824,11 @@ func (m *magAnalyzer) instr(f *mframe, st *mstate, ins ssa.Instruction) {
 		f.env[x] = r
 	case *ssa.Defer, *ssa.Go, *ssa.RunDefers, *ssa.DebugRef, *ssa.Send, *ssa.MapUpdate:
 	case *ssa.MakeClosure:
-		f.env[x] = &mv{kind: mFunc, Fn: x.Fn.(*ssa.Function)}
+		fv := &mv{kind: mFunc, Fn: x.Fn.(*ssa.Function)}
+		for _, b := range x.Bindings {
+			fv.Elems = append(fv.Elems, m.val(f, b))
+		}
+		f.env[x] = fv
 	default:
 		if v, ok := ins.(ssa.Value); ok {
 			f.env[v] = m.unknownOf(v.Type(), 0)
